@@ -15,4 +15,5 @@ CONSTANTS
   AllowFlush = FALSE
   AtomicPoll = TRUE
 INVARIANTS PollOK CapacityOK TokensOK InterestsOK FilesOK NoStall QuietNotReady Witnesses
+PROPERTY AbsRefines
 CHECK_DEADLOCK FALSE
